@@ -314,11 +314,26 @@ func main() {
 		if n%4 == 3 {
 			size = uint64(1000 + r.Intn(1000)) // process ids of four digits
 		}
+		// schedule search: in every third run each process is descheduled for a while between the return of its RPC and
+		// the recording of the outcome, while the scheduler runs at a high rate over a handful of processes
+		perturbed := n%3 == 1
+		if perturbed {
+			size = uint64(1 + r.Intn(3))
+		}
 		t0 := time.Now()
 		c := lcm.NewCoordinator(context.Background(), size, 1, []string{dAddr})
-		for round := 0; round < 25; round++ {
-			c.VerifSchedule()
-			time.Sleep(time.Duration(2+r.Intn(12)) * time.Millisecond)
+		if perturbed {
+			c.VerifDelayCompletions(time.Duration(4+r.Intn(8)) * time.Millisecond)
+			run.Count("c07:perturbed_runs")
+			for round := 0; round < 120; round++ {
+				c.VerifSchedule()
+				time.Sleep(time.Duration(1+r.Intn(3)) * time.Millisecond)
+			}
+		} else {
+			for round := 0; round < 25; round++ {
+				c.VerifSchedule()
+				time.Sleep(time.Duration(2+r.Intn(12)) * time.Millisecond)
+			}
 		}
 		for i := 0; i < 3000 && c.VerifBusy() > 0; i++ {
 			time.Sleep(2 * time.Millisecond)
